@@ -36,8 +36,9 @@ Hypotheses.
 * `load_config` theorems: the interpreter starts from a parsed object (`Container`, keys only); file names, streams,
   YAML and the command line are outside (their conditions are `false` in `cfgAtom`).
 
-Not connected (see the report): stability of the sort (the interpretation's insertion sort *reverses* ties, example
-below; C01 itself only needs sorted), `to_csv` round trip, YAML stream / file / command line containers, the text
+Stability of the sort: `c01_ties_keep_order` (rows with the same date keep the order of the concatenated groups, i.e.
+group order and particle order inside a group — what C04's "verbatim in particle order" needs when a group is released
+at one time).  Not connected (see the report): `to_csv` round trip, YAML stream / file / command line containers, the text
 of the error message (only the list `not_present` it is formatted from, `…_partial`), and the link "same normalised
 configuration ⇒ same evaluated groups" (`Container` carries keys, not values).
 -/
@@ -579,6 +580,23 @@ theorem c01_sorted_by_date (groups : List (Frame α × Nat)) (columns : Option (
     List.Pairwise (fun a b => dateKey cols a ≤ dateKey cols b) rows :=
   (rows_perm zero (run_inv zero h).2.2).2 hdate
 
+/-- **Ties keep their order** (C01 "the values belonging to one particle stay together", C04 "explicit lists are
+reproduced verbatim in particle order" for particles released at one time).  Without a `columns` list the rows of the
+returned table that carry a given date string are, in this order, the rows with that date of the groups' zero-filled
+rows concatenated group by group: the date sort never reorders particles that share a release time. -/
+theorem c01_ties_keep_order (groups : List (Frame α × Nat)) (hasSeed fname : Bool) (cols : List String)
+    (rows : List (List (Cell α))) (hne : groups ≠ [])
+    (h : runMakeRelease zero groups none hasSeed fname Gen.make_release_seq = some (some (cols, rows))) (k : String) :
+    cols = (concatFill zero groups).1 ∧
+      rows.filter (fun x => dateKey cols x == k) = (concatFill zero groups).2.filter (fun x => dateKey cols x == k) := by
+  rw [Bridge.make_release_seq zero groups none hasSeed fname hne] at h
+  unfold makeTable at h
+  split at h
+  · simp only [Option.some.injEq, Prod.mk.injEq] at h
+    obtain ⟨rfl, rfl⟩ := h
+    exact ⟨rfl, C01.sortRows_stable _ _ k⟩
+  · simp at h
+
 theorem Rel.frames_ok_iff {α : Type} (groups : List (Frame α × Nat)) :
     groups.all (fun g => frameOk g.1 g.2) = true ↔ ∀ g ∈ groups, ∀ p ∈ g.1, p.2.length = g.2 := by
   simp [frameOk, List.all_eq_true]
@@ -1116,10 +1134,10 @@ example : ∃ cols rows, runMakeRelease (0 : Int) [(exF1, 1), (exF2, 2)] (some [
 example : runMakeRelease (0 : Int) [(exF1, 1), (exF2, 2)] (some ["X"]) true true Gen.make_release_seq = some none :=
   c18_invalid_table_raises 0 _ _ _ _ (Or.inr (Or.inr ⟨["X"], "X", rfl, by decide, by decide, (exF1, 1), by simp, by decide⟩))
 
-/-- **the sort of the interpretation is not stable**: two particles of one group with the same date come out in the
-reverse order (pandas' default `quicksort` gives no guarantee either; C01 asks for sorted, which holds) -/
+/-- **the sort of the interpretation is stable** (`c01_ties_keep_order`): two particles of one group with the same date
+come out in particle order -/
 example : runMakeRelease (0 : Int) [([("date", [.str "d", .str "d"]), ("w", [.num 1, .num 2])], 2)] none false false
-    Gen.make_release_seq = some (some (["date", "w"], [[.str "d", .num 2], [.str "d", .num 1]])) := by
+    Gen.make_release_seq = some (some (["date", "w"], [[.str "d", .num 1], [.str "d", .num 2]])) := by
   rw [Bridge.make_release_seq _ _ _ _ _ (by simp)]; decide
 
 /-- `c18_valid_config_accepted` / `c18_invalid_config_raises`: a flat mapping with `seed`, a list with an incomplete
